@@ -262,3 +262,7 @@ def run(ctx, rep) -> None:
     # handlers with timeout=T: the record's creation instant is part of the compared state, NoLateAttempt is evaluated in every state
     scs += H.gen_scenarios(ctx.seed, 60 if ctx.quick else 1200, 'timeouts')
     _family.run_traces(rep, scs, '+'.join(PROFILES), nontrivial=lambda f: bool(f & FEATURES))
+    # the sleep for a handler's delay is aiotime.sleep; what it returns decides whether the delayed handler is woken up (the touch): the
+    # real coroutine against Kits.tla, also from instants and for delays that are no round numbers
+    from vf import kits
+    kits.stage(ctx, rep, "the sleep for a handler's delay (aiotime.sleep)")
